@@ -88,6 +88,33 @@ CLAIMS = {
           "Does NOT decide value-level hashing/zlib/slicing arithmetic."),
     note="hashlib/zlib/slicing trusted value-correct; read(n) returns b'' only at EOF.",
     technique="path enumeration over loop bodies + interprocedural provenance + sibling term comparison (AST/def-use)", ref="5/C01"),
+ 'C10': dict(
+    text=("Decides: (R1) should_compress has a branch for every CompressMode member with the constant answer the mode demands (NO->False, YES->True, KEEP->source flag), raises otherwise, and bool maps to YES/NO; "
+          "(R2) the compressed flag stored in the index row is the very value that selects the writer's compressing branch (pack_all_loose, direct path, _write_data_to_packfile guards), and in repack it is decided for every object from that object's own stored form on every path, with a complete transfer branch table; "
+          "(R3) estimate_compression restores the stream position on every path (typestate) and should_compress touches the stream nowhere else; (R4) size = bytes read by the writer / copied from the row, totals map SUM(size)/SUM(length) to the right labels; (R5) decompresser rewind resets all state. "
+          "Does NOT decide that inflate(deflate(x)) == x nor the AUTO heuristic's numeric choice."),
+    note="zlib trusted.",
+    technique="enum/branch table check + def-use agreement + position-restore typestate", ref="5/C10"),
+ 'C11': dict(
+    text=("Decides: (R1) every unlink and the DELETE of delete_objects are keyed by elements of the request parameter (duplicates by the exact prefix '<key>.'), the chunk loop feeds every chunk (<= 999) to both SELECT and DELETE; "
+          "(R2) a cursor typestate shows the selected rows are consumed before a modifying statement runs on the same connection, and the returned keys are exactly (loose files actually removed) U (rows selected); "
+          "(R3) repack iterates exactly the rows of the pack in offset order, reads each object through a reader bounded by its own row, into a temporary pack whose absence is asserted before it is opened for appending; (R4) packs without rows are unlinked and repack() visits every pack. "
+          "Does NOT decide byte equality of the rewritten packs."),
+    note="sqlite3 cursors are lazy against later modifications on the same connection.",
+    technique="interprocedural provenance + cursor / freshness typestate + SQL statement terms", ref="5/C11"),
+ 'C12': dict(
+    text=("Decides completeness of the validator (necessary for 'never clean on a damaged one') and the pack set it opens (necessary for 'clean on reachable states'): (R1) every loose key is opened, rehashed with the configured type, a mismatch unconditionally recorded; "
+          "(R2) the packs visited are exactly SELECT DISTINCT pack_id of the index; per row (all rows of the pack, ORDER BY offset, positional unpacking) digest, size and strict overlap comparisons each record the key on the failing branch; "
+          "(R3) result keys = ValidationIssues fields, per-pack results accumulated with += for every pack, is_valid and the CLI exit status reflect every field. Does NOT decide absence of false positives on all reachable states nor detection of every bit flip (value-level)."),
+    note="Hash collisions excluded; reader classes covered by C07.",
+    technique="def-use / statement-shape checks + SQL statement terms", ref="5/C12"),
+ 'C16': dict(
+    text=("Decides: (R1) sibling agreement of the four two-strategy lookups: each is normalised to a term (set, threshold, chunk source/size <= 999, IN column, ORDER BY hashkey scan, sorted right side, left_key column = hashkey, keep BOTH only, same selected columns, same accumulator/item) and all fields must agree; "
+          "(R2) the funnel de-duplicates the request once, probes loose only for keys not found in the index, skip_if_missing guards only MISSING yields, has_objects answers element-wise over the original list; "
+          "(R3) both primary-key paging loops: id > last (strict), ORDER BY id, LIMIT, last = id of the last row, start -1, stop on empty page, all rows consumed; (R4) detect_where_sorted guards (new <= last -> ValueError on both sides, left_key applied), chunk_iterator / merge_sorted shapes, IN batch <= 999. "
+          "Does NOT decide the correctness of detect_where_sorted's merge control logic for all pairs of sequences (value-level)."),
+    note="SQLITE_MAX_VARIABLE_NUMBER >= 999; SQLite and Python order hex keys identically.",
+    technique="sibling-term extraction and comparison over AST/SQL terms", ref="5/C16"),
 }
 
 PENDING_REASON = "check not built yet in this session (work in progress; DESIGN.md section 5 describes the planned static rules)"
